@@ -1,8 +1,12 @@
-"""C04: decided on the shared graph-history stream (harness/graph.py)."""
+"""C04: containment is a forest kept consistent from both ends (shared
+graph-history stream) and separately constructed nodes share nothing
+(alias_stream)."""
+import alias_stream
 import graph_stream
 
 
 def run(ctx):
+    alias_stream.run(ctx)
     graph_stream.run(ctx)
 
 
